@@ -185,12 +185,20 @@ func (fd *Client) UpdateTable(input *dynamodb.UpdateTableInput) (*dynamodb.Updat
 		return nil, awserr.New(dynamodb.ErrCodeResourceNotFoundException, "Cannot do operations on a non-existent table", nil)
 	}
 
+	// a failing UpdateTable must leave the attribute definitions as they were
+	previousDefs := make(map[string]string, len(table.AttributesDef))
+	for name, typ := range table.AttributesDef {
+		previousDefs[name] = typ
+	}
+
 	if input.AttributeDefinitions != nil {
 		table.SetAttributeDefinition(mapAttributeValueDefinitionToDynamodb(input.AttributeDefinitions))
 	}
 
 	for _, change := range input.GlobalSecondaryIndexUpdates {
 		if err := table.ApplyIndexChange(mapGlobalSecondaryIndexUpdateToTypes(change)); err != nil {
+			table.AttributesDef = previousDefs
+
 			return &dynamodb.UpdateTableOutput{
 				TableDescription: mapTableDescriptionToDynamodb(table.Description(tableName)),
 			}, err
